@@ -248,8 +248,7 @@ theorem drain_asc {B : Vector (Block V) n} (hwf : ∀ i : Fin n, BlockWF B[i]) (
         | cons _ _ => rfl
       simp only [hne']
       -- the cursor after the read
-      let c1 : Cursor V n := { blocks := B, rd := (readLoop true B c.current c.rd).1,
-          current := (readLoop true B c.current c.rd).2.1, pos := c.pos, ascending := true }
+      let c1 : Cursor V n := { blocks := B, rd := (readLoop true B c.current c.rd).1, current := (readLoop true B c.current c.rd).2.1, pos := c.pos, ascending := true }
       have hp2' : ∀ i ∈ c1.current, c1.pos ≤ (i.val : Int) := by
         intro i hi
         apply hp2 i
@@ -257,8 +256,7 @@ theorem drain_asc {B : Vector (Block V) n} (hwf : ∀ i : Fin n, BlockWF B[i]) (
         exact List.mem_append_right _ hi
       obtain ⟨c2, hn, hb2, hrd2, hasc2, inv2, hpos2, hp22⟩ :=
         next_asc (c := c1) hwf (W := W') rfl inv' hpos hp2'
-      have hn' : Cursor.next { blocks := B, rd := (readLoop true B c.current c.rd).1,
-          current := (readLoop true B c.current c.rd).2.1, pos := c.pos, ascending := true } = some c2 := hn
+      have hn' : Cursor.next { blocks := B, rd := (readLoop true B c.current c.rd).1, current := (readLoop true B c.current c.rd).2.1, pos := c.pos, ascending := true } = some c2 := hn
       simp only [Bool.false_eq_true, if_false, hn']
       -- one point at least was delivered: the variant decreases
       have hdec : cntAbove B W' < cntAbove B W := by
